@@ -146,3 +146,50 @@ func genGolden(outDir, commit string) error {
 	}
 	return nil
 }
+
+// ---- extra golden: a type whose name starts with an acronym, with and
+// without lower-case names (written by the pinned release like the others) ----
+
+type GoldenExtra struct {
+	Name   string            `json:"name"`
+	Commit string            `json:"written_by_commit"`
+	Lower  bool              `json:"lowercase_names"`
+	Dir    string            `json:"dir"`
+	Objs   map[string]string `json:"objs"`
+}
+
+func genGoldenExtra(outDir, commit string) error {
+	for i, lower := range []bool{false, true} {
+		name := fmt.Sprintf("x%d", i)
+		root := filepath.Join(outDir, name, "db")
+		os.RemoveAll(filepath.Join(outDir, name))
+		sod.LowercaseNames = lower
+		db := sod.Open(root)
+		if err := db.Create(&URLRec{}, sod.DefaultSchema); err != nil {
+			return err
+		}
+		man := GoldenExtra{Name: name, Commit: commit, Lower: lower, Objs: map[string]string{}}
+		for j := 0; j < 3; j++ {
+			o := &URLRec{Host: fmt.Sprintf("Host%d.Example", j), Hits: j * 10}
+			if err := db.InsertOrUpdate(o); err != nil {
+				return err
+			}
+			man.Objs[o.UUID()] = canonJSON(o)
+		}
+		if err := db.Close(); err != nil {
+			return err
+		}
+		ents, _ := os.ReadDir(root)
+		if len(ents) != 1 {
+			return fmt.Errorf("%s: expected one directory", name)
+		}
+		man.Dir = ents[0].Name()
+		b, _ := json.MarshalIndent(man, "", " ")
+		if err := os.WriteFile(filepath.Join(outDir, name, "manifest.json"), b, 0o644); err != nil {
+			return err
+		}
+		fmt.Printf("golden %s: lower=%v dir=%s\n", name, lower, man.Dir)
+	}
+	sod.LowercaseNames = false
+	return nil
+}
